@@ -276,7 +276,8 @@ type c03BReq struct {
 	Method, Target, Proto string
 	Lines                 []c03Line
 	Body                  c03Body
-	Via                   int // port of the listener the request arrived at
+	Via                   int    // port of the listener the request arrived at
+	ViaAddr               string // ip:port of the listener the request arrived at
 }
 
 // c03Script is one answer of the backend: bytes written verbatim.
@@ -320,6 +321,17 @@ func (b *c03Backend) addListener(network, addr string) (int, error) {
 	return ln.Addr().(*net.TCPAddr).Port, nil
 }
 
+// addNamedListener opens a further listener on a given address.
+func (b *c03Backend) addNamedListener(network, addr string) (net.Listener, error) {
+	ln, err := net.Listen(network, addr)
+	if err != nil {
+		return nil, err
+	}
+	b.more = append(b.more, ln)
+	b.accept(ln)
+	return ln, nil
+}
+
 func (b *c03Backend) accept(ln net.Listener) {
 	go func() {
 		for {
@@ -355,7 +367,7 @@ func (b *c03Backend) serve(c net.Conn) {
 			return
 		}
 		parts := strings.SplitN(start, " ", 3)
-		r := &c03BReq{Lines: lines, Via: c.LocalAddr().(*net.TCPAddr).Port}
+		r := &c03BReq{Lines: lines, Via: c.LocalAddr().(*net.TCPAddr).Port, ViaAddr: c.LocalAddr().String()}
 		if len(parts) == 3 {
 			r.Method, r.Target, r.Proto = parts[0], parts[1], parts[2]
 		} else {
@@ -393,6 +405,16 @@ func (b *c03Backend) begin(scs ...*c03Script) {
 	b.scripts = scs
 	b.reqs = nil
 	b.mu.Unlock()
+}
+
+// take returns the requests seen since begin / the last take; connections stay open (the next
+// request of a sequence may reuse them).
+func (b *c03Backend) take() []*c03BReq {
+	b.mu.Lock()
+	defer b.mu.Unlock()
+	r := b.reqs
+	b.reqs = nil
+	return r
 }
 
 // end closes all connections (the proxy instance of the case is discarded, nothing is in flight)
@@ -472,6 +494,8 @@ type c03Config struct {
 	ProxyLimit     int64 // serverMaxBodySize of the proxy
 	ReqAdaptor     map[string]interface{}
 	RespAdaptor    map[string]interface{}
+	CacheSize      int                    // > 0: route cache of the HTTPServer (cacheSize)
+	MemoryCache    map[string]interface{} // memoryCache section of the pool, nil: none
 }
 
 // install builds a fresh mux and a fresh pipeline for cfg; the returned func tears them down.
@@ -491,6 +515,9 @@ func (s *c03Stack) install(cfg *c03Config) (func(), error) {
 	}
 	if cfg.PoolLimit != 0 {
 		pool["serverMaxBodySize"] = cfg.PoolLimit
+	}
+	if cfg.MemoryCache != nil {
+		pool["memoryCache"] = cfg.MemoryCache
 	}
 	proxy := map[string]interface{}{"name": "proxy", "kind": "Proxy", "pools": []interface{}{pool}}
 	if cfg.ProxyLimit != 0 {
@@ -529,6 +556,9 @@ func (s *c03Stack) install(cfg *c03Config) (func(), error) {
 	}
 	if cfg.ServerLimit != 0 {
 		hs["clientMaxBodySize"] = cfg.ServerLimit
+	}
+	if cfg.CacheSize > 0 {
+		hs["cacheSize"] = cfg.CacheSize
 	}
 	hj, _ := json.Marshal(hs)
 	hspec, err := supervisor.NewSpec(string(hj))
